@@ -190,6 +190,15 @@ ADDED5 = {
 }
 for k,v in ADDED5.items():
     CLAIMS[k]["text"] = CLAIMS[k]["text"] + v
+ADDED6 = {
+ "C01": " The parser's recursion passes through one hub that compares its depth counter with a bound (C01-DEPTH).",
+ "C04": " The loader starts the main function afresh when the interpreter is at rest, and a generated name is never bound (C04-GROW; one interned symbol per compilation of fn/for/package/range is a recorded finding).",
+ "C05": " eval brackets its nested run with capture/restore, the capture before the frame is pushed (C05-CAP); the undo of a failed declaration hands the previous type to nothing that stores into it (C05-UNDO); callers of GenerateBegin outside the generator put the macro table back when the text does not compile (C05-MACRO; the run-time half is a recorded finding).",
+ "C12": " Reader-made symbol names match the lexer's own symbol pattern (C12-SYMNAME); the words printed for nil and booleans have a literal in the reader (C12-WORD); a point after a minus sign is looked at separately when the number patterns accept -.5 (C12-SIGNFRAC). Constant patterns of the package are compiled and matched in the checker; no code of the package is run.",
+ "C13": " flushAtEnd, entered in any state in which LexNextRune holds a token back (derived), lexes a terminator or asks for more input (C13-FLUSHALL); a routine that discards comments does not flush a pending line comment (C13-FLUSHCMT).",
+}
+for k,v in ADDED6.items():
+    CLAIMS[k]["text"] = CLAIMS[k]["text"] + v
 NA_DEFAULT="rules not built yet (build in progress; see DESIGN.md §7)"
 NA = {}
 
